@@ -101,7 +101,7 @@ def _run_spawned(it):
     return it.run_coro(sp[0]["target"])
 
 
-@contract("mysensors.task:AsyncTasks._schedule_factory", props=["C15"], name="save_on_schedule")
+@contract("mysensors.task:AsyncTasks._schedule_factory", props=["C14", "C15"], name="save_on_schedule")
 class AsyncSchedule:
     lemma = True
     params = ["tasks", "save"]
@@ -113,6 +113,8 @@ class AsyncSchedule:
 
     def setup(h):
         _vocab(h.it)
+        # stop() cancels this task whenever it likes: also while a save is running in the executor thread
+        h.it.env["executor_cancellable"] = True
 
         def m_run(it2, a, k):
             tasks, save = a
@@ -126,7 +128,9 @@ class AsyncSchedule:
         h.it.models[id(run_schedule_and_loop)] = ModelFn("run_schedule_and_loop", m_run)
         return [_tasks(T.AsyncTasks), Opaque("save_sensors", failing_save)], {}
 
-    # the save loop ends only by cancellation: no failure of a save may escape it
+    # the save loop ends only by cancellation - at the sleep or while a save is in the executor - and then silently:
+    # no failure of a save and no CancelledError may escape it (stop() awaits the cancelled task before its final
+    # save; an exception out of that await would abort stop() before anything is saved: C14)
     raises = {}
     ensures = {"task-spawned": lambda old, tasks, save, result: spawned_one_task() and tasks._cancel_save is not None}
 
@@ -166,12 +170,20 @@ def _stop_setup(cls):
             cancel_fn = ModelFn("cancel_save", cancel)
         else:
             cancel_fn = ModelFn("cancel_save", lambda it2, a, k: log.append("cancel-timer"))
+        # one job is still queued when the user stops the gateway: it belongs to the pump (the only consumer of the
+        # queue - "each sent exactly once, in queue order" rests on that), so stop() must neither run nor send it
+        import collections
+
+        tr.attrs["send"] = ModelFn("transport.send", lambda it2, a, k: log.append("send"))
+        job = ModelFn("queued-job", lambda it2, a, k: (log.append("job-run"), "1;1;1;0;2;1\n")[1])
+        queue = collections.deque([(job, ())])
+        it.env["stop_queue"] = queue
         t.fields.update(
             transport=tr,
             _stop_event=ev,
             persistence=p,
             _cancel_save=cancel_fn if c.get("scheduled", True) else None,
-            queue=None,
+            queue=queue,
         )
 
         def m_order(it2, a, k):
@@ -199,6 +211,9 @@ def _stop_setup(cls):
                 terms.append(z3.Or(fs_.recover_term(s_) == it2.env["v_new"], fs_.recover_term(s_) == it2.env["v_old"]))
             return ops.mk("bool", z3.And(terms))
 
+        it.models[id(queue_left_to_the_pump)] = ModelFn(
+            "queue_left_to_the_pump", lambda it2, a, k: len(queue) == 1 and "job-run" not in log and "send" not in log
+        )
         it.models[id(stop_order_ok)] = ModelFn("stop_order_ok", m_order)
         it.models[id(state_persisted)] = ModelFn("state_persisted", m_persisted)
         return [t], {}
@@ -207,6 +222,10 @@ def _stop_setup(cls):
 
 
 def stop_order_ok():
+    return True
+
+
+def queue_left_to_the_pump():
     return True
 
 
@@ -223,7 +242,7 @@ _STOP_CFG = [
 ] + [{"persistence": False, "fmt": "json"}]
 
 
-@contract("mysensors.task:SyncTasks.stop", props=["C14"])
+@contract("mysensors.task:SyncTasks.stop", props=["C14", "C16", "C20"])
 class SyncStop:
     configs = _STOP_CFG
     setup = _stop_setup(T.SyncTasks)
@@ -233,10 +252,13 @@ class SyncStop:
         "order": lambda old, self, result: stop_order_ok(),
         "persisted": lambda old, self, result: state_persisted() and (self.persistence is None or not self.persistence.need_save),
         "timer-forgotten": lambda old, self, result: self.persistence is None or self._cancel_save is None,
+        # stop() is not a second consumer of the job queue and writes nothing itself (C16: exactly once, in queue
+        # order; C20: no writes once stop() has been called)
+        "queue-left-to-the-pump": lambda old, self, result: queue_left_to_the_pump(),
     }
 
 
-@contract("mysensors.task:AsyncTasks.stop", props=["C14"])
+@contract("mysensors.task:AsyncTasks.stop", props=["C14", "C16", "C20"])
 class AsyncStop:
     configs = _STOP_CFG
     setup = _stop_setup(T.AsyncTasks)
@@ -245,4 +267,7 @@ class AsyncStop:
         "order": lambda old, self, result: stop_order_ok(),
         "persisted": lambda old, self, result: state_persisted() and (self.persistence is None or not self.persistence.need_save),
         "timer-forgotten": lambda old, self, result: self.persistence is None or self._cancel_save is None,
+        # stop() is not a second consumer of the job queue and writes nothing itself (C16: exactly once, in queue
+        # order; C20: no writes once stop() has been called)
+        "queue-left-to-the-pump": lambda old, self, result: queue_left_to_the_pump(),
     }
